@@ -128,6 +128,11 @@ func eval(fm *Frame, opts evalOpts, code string) error {
 	// The stacktrace already contains the line that calls "eval", so we pass
 	// nil as the second argument.
 	newNs, exc := fm.Eval(src, nil, ns)
+	if newNs == nil {
+		// The code had a static error and did not run: the namespace is as it
+		// was.
+		newNs = ns
+	}
 	if opts.OnEnd != nil {
 		newFm := fm.Fork()
 		errCb := opts.OnEnd.Call(newFm, []any{newNs}, NoOpts)
@@ -158,7 +163,7 @@ func useMod(fm *Frame, spec string) (*Ns, error) {
 
 func deprecate(fm *Frame, msg string) {
 	var ctx *diag.Context
-	if fm.traceback.Next != nil {
+	if fm.traceback != nil && fm.traceback.Next != nil {
 		ctx = fm.traceback.Next.Head
 	}
 	fm.Deprecate(msg, ctx, 0)
